@@ -29,8 +29,46 @@ def stale_sources(tree):
     return stale
 
 
+_SCRATCH = {}
+
+
+def _cleanup():
+    import shutil
+    for d in _SCRATCH.values():
+        shutil.rmtree(d, ignore_errors=True)
+
+
+def build_scratch(tree):
+    """Compiled modules older than their sources: build a scratch copy of the tree outside /repo and /verif (removed at exit)
+    so that the replay runs the code the obligations were generated from."""
+    import atexit
+    import shutil
+    if tree in _SCRATCH:
+        return _SCRATCH[tree]
+    base = os.environ.get('TMPDIR', '/var/tmp')
+    dst = tempfile.mkdtemp(prefix='verif_replay_build_', dir=base)
+    if not _SCRATCH:
+        atexit.register(_cleanup)
+    _SCRATCH[tree] = dst
+    # start from the real build outputs of /repo (same commit family) so that only stale modules are recompiled
+    subprocess.run(['rsync', '-a', '--exclude', '.git', '/repo/', dst + '/'], check=False)
+    if os.path.abspath(tree) != '/repo':
+        subprocess.run(['rsync', '-a', '--exclude', '.git', '--exclude', '*.so', '--exclude', '*.c', tree.rstrip('/') + '/', dst + '/'],
+                       check=False)
+    p = subprocess.run(['/venv/bin/python', 'setup.py', 'build_ext', '-j16', '--inplace'], cwd=dst, capture_output=True, text=True)
+    if p.returncode != 0:
+        _SCRATCH[tree] = None
+        shutil.rmtree(dst, ignore_errors=True)
+        return None
+    return dst
+
+
 def run_native(ctx, code, timeout=300):
     tree = ctx.get('repo', '/repo')
+    if stale_sources(tree) and not os.environ.get('VERIF_NO_SCRATCH_BUILD'):
+        built = build_scratch(tree)
+        if built:
+            tree = built
     src = PRELUDE % tree + code
     fd, path = tempfile.mkstemp(suffix='.py', dir=os.environ.get('TMPDIR', '/var/tmp'))
     try:
